@@ -258,7 +258,7 @@ func init() {
 		var fe [][]string
 		for _, ver := range []int{3, 2} {
 			for _, en := range lib.Enums(ver) {
-				fe = append(fe, []string{"enum", fmt.Sprint(ver), en.Name})
+				fe = append(fe, []string{"enum", fmt.Sprint(ver), en.Name}, []string{"weightsfirst", fmt.Sprint(ver), en.Name})
 			}
 		}
 		firstUse(r, fe)
